@@ -35,12 +35,14 @@ let default_facts = {
   f_branch = None; f_uptodate = false; f_picks = []; f_origs = []; f_news = []; f_noise = []; f_srcs = [];
   f_made = []; f_target = None; f_backward = true; f_dirty_after = false; f_stash_top = None;
   f_stash_before = O; f_stash_after = O; f_stash_new = None; f_squash_src = None; f_merged = true;
-  f_wl_pending = false; f_uncheckpointed = false; f_path_pending = false; f_detached = false }
+  f_wl_pending = false; f_uncheckpointed = false; f_path_pending = false; f_detached = false; f_autostash_va = false;
+  f_upstream_touches_pending = false }
 
 let noise_firing f name =
   let h = hook_of name in
   let e = with_seq (env0 f) true None false None in
-  let args = if h = HN_post_rewrite then APostRewrite (false, true, []) else ANone in
+  let args = if h = HN_post_rewrite then APostRewrite (false, true, [])
+             else if h = HN_reference_transaction then ARefTx (Committed, None, None, false, false) else ANone in
   { h_name = h; h_args = args; h_env = e }
 
 let set f (k, v) = match k with
@@ -68,6 +70,8 @@ let set f (k, v) = match k with
   | "merged" -> { f with f_merged = b v } | "wl_pending" -> { f with f_wl_pending = b v }
   | "uncheckpointed" -> { f with f_uncheckpointed = b v } | "path_pending" -> { f with f_path_pending = b v }
   | "detached" -> { f with f_detached = b v }
+  | "autostash_va" -> { f with f_autostash_va = b v }
+  | "upstream_touches_pending" -> { f with f_upstream_touches_pending = b v }
   | "noise" | "pre" -> f
   | s -> failwith ("field " ^ s)
 
@@ -91,6 +95,7 @@ let show_shape = function
   | SRemovePathAttributions -> L [Sym "remove_path_attributions"]
   | SSaveStash -> L [Sym "save_stash"]
   | SRestoreStash -> L [Sym "restore_stash"]
+  | SRestoreStashedVA -> L [Sym "restore_stashed_va"]
 let shapes l = show (L (List.map show_shape (erase_shas l)))
 
 let c13_events body = match parse_many body with
